@@ -415,8 +415,8 @@ H("C09", "gearsets", "c09_slot_type_tables", unwind=4, bounds="all usize", encod
 H("C09", "gearsets", "c09_gearset_table_positions", tier="thorough", unwind=104, timeout=1800, cbmc_args=["--max-field-sensitivity-array-size", "16384"], bounds="100-entry list with positions 0, 57, 99 occupied (symbolic index bytes)", encodes=["gearsets::convert_to_gearsets"],
   stubs=["std::hash::RandomState::new -> fixed keys"])
 for n, t in ((46, "quick"), (45, "thorough"), (1, "quick")):
-    H("C09", "gearsets", "c09_gearset_name_len%d" % n, tier=t, unwind=50, timeout=600, bounds="all ASCII gear-set names of length %d (the name field holds 46 bytes + terminator): write-side conversion keeps every byte, and converts back" % n,
-      encodes=["gearsets::convert_from_string", "gearsets::convert_to_string", "binrw::NullString"], stubs=["core::str::validations::run_utf8_validation -> ASCII-only model"])
+    H("C09", "gearsets", "c09_gearset_name_len%d" % n, tier=t, unwind=50, timeout=600, bounds="all ASCII gear-set names of length %d (the name field holds 46 bytes + terminator): write-side conversion keeps every byte" % n,
+      encodes=["gearsets::convert_from_string", "binrw::NullString::from"], stubs=["core::str::validations::run_utf8_validation -> ASCII-only model"])
 H("C09", "gearsets", "c09g_pipeline_witness", expect="witness-fail", bounds="assert(false) twin")
 
 # ================================================================================================
